@@ -213,6 +213,28 @@ pub fn write_evidence(
         "wall_s": wall_s,
         "violations": violations,
     });
+    // The latest run of each tier is also kept beside the evidence directory, and the
+    // evidence of this run points at the latest run of the other tier (clearly labelled as
+    // another run: none of its numbers is counted here).
+    let mut ev = ev;
+    if let Some(parent) = dir.parent() {
+        let tdir = parent.join("evidence_by_tier");
+        let _ = std::fs::create_dir_all(&tdir);
+        let other = if tier == "quick" { "thorough" } else { "quick" };
+        if let Ok(bytes) = std::fs::read(tdir.join(format!("{}.{other}.json", info.id))) {
+            if let Ok(o) = serde_json::from_slice::<serde_json::Value>(&bytes) {
+                ev["coverage"]["latest_run_of_other_tier"] = json!({
+                    "note": "a different, earlier run; kept in evidence_by_tier/",
+                    "tier": o["tier"], "seed": o["seed"], "wall_s": o["wall_s"], "violations": o["violations"],
+                    "runs": o["coverage"]["runs"], "evaluations": o["coverage"]["evaluations"],
+                    "distinct_nontrivial": o["coverage"]["distinct_nontrivial"],
+                    "faults_fired": o["coverage"]["faults_fired"],
+                    "logical_time_storage_ops": o["coverage"]["logical_time_storage_ops"],
+                });
+            }
+        }
+        let _ = std::fs::write(tdir.join(format!("{}.{tier}.json", info.id)), serde_json::to_vec_pretty(&ev).unwrap());
+    }
     let path = dir.join(format!("{}.json", info.id));
     let tmp = dir.join(format!("{}.json.tmp", info.id));
     std::fs::write(&tmp, serde_json::to_vec_pretty(&ev).unwrap())?;
